@@ -85,6 +85,11 @@ CHECKS = {
   note="bounded: 2-3 threads, 1-2 operations each, <=2 preemptions; the race-detector pass is supporting evidence (sampling), the deciding step is the bounded exploration with the digest invariant; hardware memory-model effects are out of reach",
   tech="stateless model checking of thread interleavings (cooperative scheduler, preemption-bounded DFS with prefix replay) with a shared-state digest invariant, on an instrumented build",
   ref="DESIGN.md §5 C19"),
+ "C16": dict(
+  text="bounded-exhaustive enumeration over a 3-name universe, one dimension at a time: all 512 entity parent-type digraphs (self-loops, cycles), all 2197 assignments of bodies {Long, Tj, Set<Tj>, {a: Tj}, NS::Tj} to three common types (every cycle), all 512 action-group digraphs, 15 type references in every type position, 7 entity-type references in parent / appliesTo position, shadowing of every declaration kind; every schema is resolved and both encoders run; every schema that resolves is run through a battery of ~200 policies (every scope form and in / is / is-in between every pair of types, set / record / extension literals, unknown and receiver-less extension calls), entities and requests in strict and permissive mode; all cases run in isolated worker processes so that a fatal stack overflow is attributed to its case",
+  note="bounded: 3 names, one dimension at a time; nil types inside a programmatically built schema AST are outside the domain; a fatal error is reported only if it recurs 3 times in a fresh process with the default stack limit",
+  tech="bounded-exhaustive enumeration of schema graphs with a crash-isolating subprocess runner; oracle = returns (no panic, no fatal error)",
+  ref="DESIGN.md §5 C16"),
  "C20": dict(
   text="explicit-state BFS over all container operation histories up to the stated depth from 14 initial states, every transition executed on the real PolicySet and compared with a Go-map model and the authorization decision table",
   note="bounded: ids {a, policy1, policy10, policy2}+loaded ids, 5 policy kinds, depth 4 (quick) / 6 (thorough); model = plain Go map",
